@@ -61,7 +61,7 @@ type actor struct {
 type streamState struct {
 	s        lungo.IChangeStream
 	scope    [2]string
-	openInv  int // commits completed when Watch was invoked
+	openInv  int // commits visible when Watch was invoked
 	openRet  int // commits completed when Watch returned
 	startTok bson.Raw
 	startEv  bson.D // the delivered event whose token startTok is (or whose cluster time the stream starts at)
@@ -759,7 +759,7 @@ func (a *actor) watch(op *Op) *CallRec {
 				}
 			}
 		}
-		st.openInv = len(e.commits)
+		st.openInv = e.visibleCommits()
 		var s lungo.IChangeStream
 		var err error
 		switch op.Scope {
